@@ -166,3 +166,203 @@ theorem updGrad_ok {u : SFUser α ε} {s s' : SF α} (hc : Coh u s) (h : s.updGr
 
 end
 end Lbfgsb
+
+/-! ### Summaries used by the shell proofs -/
+namespace Lbfgsb
+variable {α ε : Type}
+
+/-- `l'` extends `l` by entries that all satisfy `P` -/
+def LogExt (P : Call α → Prop) (l l' : List (Call α)) : Prop :=
+  ∃ d, l' = l ++ d ∧ ∀ c ∈ d, P c
+
+theorem LogExt.refl {P : Call α → Prop} (l : List (Call α)) : LogExt P l l :=
+  ⟨[], by simp, by simp⟩
+
+theorem LogExt.trans {P : Call α → Prop} {l1 l2 l3 : List (Call α)}
+    (h1 : LogExt P l1 l2) (h2 : LogExt P l2 l3) : LogExt P l1 l3 := by
+  obtain ⟨d1, rfl, p1⟩ := h1
+  obtain ⟨d2, rfl, p2⟩ := h2
+  refine ⟨d1 ++ d2, by simp, ?_⟩
+  intro c hc
+  rcases List.mem_append.1 hc with h | h
+  · exact p1 c h
+  · exact p2 c h
+
+theorem LogExt.mono {P Q : Call α → Prop} {l l' : List (Call α)} (h : LogExt P l l')
+    (hpq : ∀ c, P c → Q c) : LogExt Q l l' := by
+  obtain ⟨d, rfl, p⟩ := h
+  exact ⟨d, rfl, fun c hc => hpq c (p c hc)⟩
+
+theorem LogExt.single {P : Call α → Prop} (l : List (Call α)) (c : Call α) (h : P c) :
+    LogExt P l (l ++ [c]) :=
+  ⟨[c], rfl, by simpa using h⟩
+
+/-- a property of all entries is preserved by an extension whose new entries satisfy it -/
+theorem LogExt.all {P : Call α → Prop} {l l' : List (Call α)} (h : LogExt P l l')
+    (hl : ∀ c ∈ l, P c) : ∀ c ∈ l', P c := by
+  obtain ⟨d, rfl, p⟩ := h
+  intro c hc
+  rcases List.mem_append.1 hc with h | h
+  · exact hl c h
+  · exact p c h
+
+/-- what one objective/gradient request at `x` may append to the log: objective calls, and
+— with a callable gradient — only at the requested point -/
+def EvalAt (mode : GradMode) (x : Vec α) (c : Call α) : Prop :=
+  (c.kind = .F ∨ c.kind = .G) ∧ (mode = .callable → c.arg = x)
+
+theorem fcalls_evalAt_fd (x : Vec α) (ps : List (Vec α)) :
+    ∀ c ∈ fcalls ps, EvalAt .fd x c := by
+  intro c hc
+  simp only [fcalls, List.mem_map] at hc
+  obtain ⟨p, -, rfl⟩ := hc
+  exact ⟨Or.inl rfl, fun h => by cases h⟩
+
+section
+variable [LinearOrder α] [OfNat α 0]
+
+theorem updFun_log {u : SFUser α ε} {s s' : SF α} (h : s.updFun u = .ok s') :
+    LogExt (EvalAt s.mode s.x) s.log s'.log ∧ s.nfev ≤ s'.nfev ∧ s'.nfev ≤ s.nfev + 1 ∧
+      s'.ngev = s.ngev := by
+  unfold SF.updFun at h
+  by_cases hf : s.fUpd = true
+  · simp [hf, pure, Except.pure] at h
+    subst h
+    exact ⟨LogExt.refl _, Nat.le_refl _, Nat.le_succ _, rfl⟩
+  · have hf' : s.fUpd = false := by simpa using hf
+    simp only [hf', Bool.false_eq_true, if_false] at h
+    cases h1 : s.callF u s.x with
+    | error e => simp [h1, bind, Except.bind] at h
+    | ok r =>
+      obtain ⟨s1, v⟩ := r
+      simp [h1, bind, Except.bind, pure, Except.pure] at h
+      obtain ⟨-, hs1⟩ := callF_ok h1
+      subst h; subst hs1
+      exact ⟨LogExt.single _ _ ⟨Or.inl rfl, fun _ => rfl⟩, Nat.le_succ _, Nat.le_refl _, rfl⟩
+
+theorem updGrad_log {u : SFUser α ε} {s s' : SF α} (h : s.updGrad u = .ok s') :
+    LogExt (EvalAt s.mode s.x) s.log s'.log ∧ s.nfev ≤ s'.nfev ∧
+      (s.mode = .callable → s'.nfev = s.nfev) ∧ s.ngev ≤ s'.ngev ∧ s'.ngev ≤ s.ngev + 1 := by
+  unfold SF.updGrad at h
+  by_cases hg : s.gUpd = true
+  · simp [hg, pure, Except.pure] at h
+    subst h
+    exact ⟨LogExt.refl _, Nat.le_refl _, fun _ => rfl, Nat.le_refl _, Nat.le_succ _⟩
+  · have hg' : s.gUpd = false := by simpa using hg
+    simp only [hg', Bool.false_eq_true, if_false] at h
+    cases hm : s.mode with
+    | callable =>
+      simp only [hm] at h
+      cases hG : u.Gr s.x with
+      | error e => simp [hG, bind, Except.bind] at h
+      | ok g =>
+        simp [hG, bind, Except.bind, pure, Except.pure] at h
+        subst h
+        exact ⟨LogExt.single _ _ ⟨Or.inr rfl, fun _ => rfl⟩, Nat.le_refl _, fun _ => rfl,
+          Nat.le_succ _, Nat.le_refl _⟩
+    | fd =>
+      simp only [hm] at h
+      cases h1 : s.updFun u with
+      | error e => simp [h1, bind, Except.bind] at h
+      | ok s1 =>
+        obtain ⟨hl1, hn1, -, hg1⟩ := updFun_log h1
+        cases h2 : SF.callFs u { s1 with ngev := s1.ngev + 1 } (u.fdPts s1.x s1.f) with
+        | error e => simp [h1, h2, bind, Except.bind] at h
+        | ok r =>
+          obtain ⟨s2, vs⟩ := r
+          simp [h1, h2, bind, Except.bind, pure, Except.pure] at h
+          obtain ⟨-, hs2⟩ := callFs_ok h2
+          subst h; subst hs2
+          rw [hm] at hl1
+          refine ⟨LogExt.trans hl1 ⟨_, rfl, fcalls_evalAt_fd _ _⟩, ?_, (fun h => by cases h), ?_, ?_⟩
+          · simp; omega
+          · simp [hg1]
+          · simp [hg1]
+
+end
+end Lbfgsb
+
+namespace Lbfgsb
+variable {α ε : Type} [LinearOrder α] [OfNat α 0]
+
+/-- everything the shell needs to know about one request to the wrapper at the point `x` -/
+structure EvalSum (u : SFUser α ε) (s s' : SF α) (x : Vec α) : Prop where
+  coh : Coh u s'
+  x_eq : s'.x = x
+  mode : s'.mode = s.mode
+  lb : s'.lb = s.lb
+  ub : s'.ub = s.ub
+  scale : s'.scale = s.scale
+  log : LogExt (EvalAt s.mode x) s.log s'.log
+  nfev_ge : s.nfev ≤ s'.nfev
+  nfev_le : s.mode = .callable → s'.nfev ≤ s.nfev + 1
+  ngev_ge : s.ngev ≤ s'.ngev
+
+variable [Mul α]
+
+theorem funv_sum {u : SFUser α ε} {s s' : SF α} {x : Vec α} {f : α} (hc : Coh u s)
+    (h : s.funv u x = .ok (s', f)) :
+    EvalSum u s s' x ∧ ∃ f0, u.F x = .ok f0 ∧ f = f0 * s.scale := by
+  simp only [SF.funv] at h
+  obtain ⟨hx, hm, hlb, hub, hsc, hn, hg, hl, -⟩ := updateX_spec s x
+  cases h1 : (s.updateX x).updFun u with
+  | error e => simp [h1, bind, Except.bind] at h
+  | ok s1 =>
+    simp [h1, bind, Except.bind, pure, Except.pure] at h
+    obtain ⟨rfl, rfl⟩ := h
+    obtain ⟨hc1, -, hF, hx1, hm1, hlb1, hub1, hsc1, -⟩ := updFun_ok (updateX_coh hc x) h1
+    obtain ⟨hlog, hge, hle, hng⟩ := updFun_log h1
+    rw [hx] at hF
+    rw [hm, hx, hl] at hlog
+    refine ⟨⟨hc1, by rw [hx1, hx], by rw [hm1, hm], by rw [hlb1, hlb], by rw [hub1, hub],
+      by rw [hsc1, hsc], hlog, by omega, fun _ => by omega, by omega⟩, s1.f, hF, by rw [hsc1, hsc]⟩
+
+theorem gradv_sum {u : SFUser α ε} {s s' : SF α} {x : Vec α} {g : Vec α} (hc : Coh u s)
+    (h : s.gradv u x = .ok (s', g)) :
+    EvalSum u s s' x ∧ ∃ g0, gradSpec u s.lb s.ub s.mode x = .ok g0 ∧ g = vscale g0 s.scale := by
+  simp only [SF.gradv] at h
+  obtain ⟨hx, hm, hlb, hub, hsc, hn, hg, hl, -⟩ := updateX_spec s x
+  cases h1 : (s.updateX x).updGrad u with
+  | error e => simp [h1, bind, Except.bind] at h
+  | ok s1 =>
+    simp [h1, bind, Except.bind, pure, Except.pure] at h
+    obtain ⟨rfl, rfl⟩ := h
+    obtain ⟨hc1, -, hG, hx1, hm1, hlb1, hub1, hsc1, -⟩ := updGrad_ok (updateX_coh hc x) h1
+    obtain ⟨hlog, hge, hcal, hng, -⟩ := updGrad_log h1
+    rw [hx, hm, hlb, hub] at hG
+    rw [hm, hx, hl] at hlog
+    rw [hm] at hcal
+    refine ⟨⟨hc1, by rw [hx1, hx], by rw [hm1, hm], by rw [hlb1, hlb], by rw [hub1, hub],
+      by rw [hsc1, hsc], hlog, by omega, fun hmm => by have := hcal hmm; omega, by omega⟩,
+      s1.g, hG, by rw [hsc1, hsc]⟩
+
+theorem funAndGrad_sum {u : SFUser α ε} {s s' : SF α} {x : Vec α} {f : α} {g : Vec α}
+    (hc : Coh u s) (h : s.funAndGrad u x = .ok (s', f, g)) :
+    EvalSum u s s' x ∧ (∃ f0, u.F x = .ok f0 ∧ f = f0 * s.scale) ∧
+      ∃ g0, gradSpec u s.lb s.ub s.mode x = .ok g0 ∧ g = vscale g0 s.scale := by
+  simp only [SF.funAndGrad] at h
+  obtain ⟨hx, hm, hlb, hub, hsc, hn, hg, hl, -⟩ := updateX_spec s x
+  cases h1 : (s.updateX x).updFun u with
+  | error e => simp [h1, bind, Except.bind] at h
+  | ok s1 =>
+    obtain ⟨hc1, hf1, hF, hx1, hm1, hlb1, hub1, hsc1, -⟩ := updFun_ok (updateX_coh hc x) h1
+    obtain ⟨hlog1, hge1, hle1, hng1⟩ := updFun_log h1
+    cases h2 : s1.updGrad u with
+    | error e => simp [h1, h2, bind, Except.bind] at h
+    | ok s2 =>
+      simp [h1, h2, bind, Except.bind, pure, Except.pure] at h
+      obtain ⟨rfl, rfl, rfl⟩ := h
+      obtain ⟨hc2, -, hG, hx2, hm2, hlb2, hub2, hsc2, -, hkeep⟩ := updGrad_ok hc1 h2
+      obtain ⟨hlog2, hge2, hcal2, hng2, -⟩ := updGrad_log h2
+      obtain ⟨hf2, -⟩ := hkeep hf1
+      rw [hx] at hF
+      rw [hx1, hx, hm1, hm, hlb1, hlb, hub1, hub] at hG
+      rw [hm, hx, hl] at hlog1
+      rw [hm1, hm, hx1, hx] at hlog2
+      rw [hm1, hm] at hcal2
+      refine ⟨⟨hc2, by rw [hx2, hx1, hx], by rw [hm2, hm1, hm], by rw [hlb2, hlb1, hlb],
+        by rw [hub2, hub1, hub], by rw [hsc2, hsc1, hsc], LogExt.trans hlog1 hlog2, by omega,
+        fun hmm => by have := hcal2 hmm; omega, by omega⟩,
+        ⟨s1.f, hF, by rw [hf2, hsc2, hsc1, hsc]⟩, s2.g, hG, by rw [hsc2, hsc1, hsc]⟩
+
+end Lbfgsb
